@@ -377,7 +377,7 @@ def _always_exits(body: List[ast.stmt]) -> bool:
     return bool(body) and isinstance(body[-1], (ast.Return, ast.Raise, ast.Continue, ast.Break))
 
 
-def dominating_literals(func: ast.AST, target: ast.AST) -> List[str]:
+def dominating_literals(func: ast.AST, target: ast.AST, include_loops: bool = True) -> List[str]:
     """Normalised conditions that hold whenever `target` executes: the tests of the enclosing if/while statements
     (negated in else-branches) and the negations of earlier guard clauses (`if T: return|raise|continue|break`) of the
     enclosing blocks; and/or/not are flattened by De Morgan, so `if a and not b:` and `if not a or b: return` give the
@@ -413,7 +413,7 @@ def dominating_literals(func: ast.AST, target: ast.AST) -> List[str]:
             return block(s.orelse, lits + _neg_lits(s.test))
         if isinstance(s, ast.While):
             if any(contains(b) for b in s.body):
-                return block(s.body, lits + _pos_lits(s.test))
+                return block(s.body, lits + (_pos_lits(s.test) if include_loops else []))
             return block(s.orelse, lits)
         for fld in ("body", "orelse", "finalbody"):
             sub = getattr(s, fld, None)
